@@ -927,7 +927,8 @@ static bool inContract(Inst& in, const Op& o) {
 	if (op == "attach") return VH_LOG != 0;
 	if (op == "obs") return true;
 #if VH_MANUAL
-	if (op == "enter" || op == "re") return !in.m->isActive();
+	if (op == "enter") return !in.m->isActive();
+	if (op == "re") return VH_HISTORY != 0 && !in.m->isActive() && o.a < VH_N;
 	if (op == "exit") return in.m->isActive();
 	if (op == "load") return VH_SERIAL != 0;
 	if (op == "save") return VH_SERIAL != 0;
